@@ -26,7 +26,8 @@
 EXTENDS Naturals, Sequences, FiniteSets, TLC, Json
 
 CONSTANTS MaxToks,   \* tokens per text
-          Level,     \* shapes with lvl <= Level are used (1 mini, 2 core, 3 all)
+          Level,     \* first token: shapes with lvl <= Level (1 mini, 2 core, 3 all)
+          LevelNext, \* later tokens: shapes with lvl <= LevelNext
           Glue,      \* TRUE: adjacent string tokens without separator are generated too
           Dump
 
@@ -128,7 +129,9 @@ Shapes == <<
                                     \o L_(<<"h",".","h">>) \o P_(<<SQ>>) \o C_(<<":">>))
 >>
 
-Idx == {k \in 1..Len(Shapes) : Shapes[k].lvl <= Level}
+IdxL(lv) == {k \in 1..Len(Shapes) : Shapes[k].lvl <= lv}
+IdxFirst == IdxL(Level)
+IdxNext == IdxL(LevelNext)
 Chars(cs) == [i \in 1..Len(cs) |-> cs[i].ch]
 Classes(cs) == [i \in 1..Len(cs) |-> cs[i].cl]
 
@@ -354,12 +357,12 @@ Add(k, j) ==
   /\ last' = k /\ ended' = FALSE
   /\ Scanned(T)
 
-AddOf(cat) == \E k \in Idx : Shapes[k].cat = cat /\ \E j \in Joiners(k) : Add(k, j)
-AddPlain   == AddOf("plain")
-AddFString == AddOf("fstr")
-AddHazard  == AddOf("hazard")
-AddComment == AddOf("comment")
-AddCode    == AddOf("code")
+Idx == IF last = 0 THEN IdxFirst ELSE IdxNext
+AddPlain   == \E k \in Idx : Shapes[k].cat = "plain"   /\ \E j \in Joiners(k) : Add(k, j)
+AddFString == \E k \in Idx : Shapes[k].cat = "fstr"    /\ \E j \in Joiners(k) : Add(k, j)
+AddHazard  == \E k \in Idx : Shapes[k].cat = "hazard"  /\ \E j \in Joiners(k) : Add(k, j)
+AddComment == \E k \in Idx : Shapes[k].cat = "comment" /\ \E j \in Joiners(k) : Add(k, j)
+AddCode    == \E k \in Idx : Shapes[k].cat = "code"    /\ \E j \in Joiners(k) : Add(k, j)
 EndLine == /\ ~ended /\ last # 0
            /\ text' = text \o <<NL>> /\ decl' = decl \o <<"C">> /\ names' = names \o <<"nl">>
            /\ ended' = TRUE /\ UNCHANGED <<hz, hzpos, last>>
@@ -392,5 +395,6 @@ RECURSIVE Cat(_)
 Cat(s) == IF s = <<>> THEN "" ELSE s[1] \o Cat(Tail(s))
 
 Publish == Dump => PrintT("@@" \o ToJson([names |-> names, text |-> text, ref |-> Cat(ref.out), impl |-> Cat(impl.kx),
-                                            hz |-> hz, hzpos |-> hzpos, mbad |-> BadSet # {}, rules |-> ref.rules]))
+                                            hz |-> hz, hzpos |-> hzpos, mbad |-> BadSet # {}, rules |-> ref.rules,
+                                            act |-> IF ended THEN "EndLine" ELSE IF last = 0 THEN "Init" ELSE Shapes[last].cat]))
 =============================================================================
